@@ -484,6 +484,27 @@ class Ctx:
                     ob.model = m[1]
                     ob.z3model = m[2]
             s.set("timeout", self.ex.feas_timeout_ms)
+            if ob.status == "unknown" and not ob.solver.startswith("z3-unsat-unconfirmed"):
+                # last resort before `undecided`: one retry on the cone of influence with a budget four
+                # times as large (a loaded machine must not turn a 4-second proof into `unknown`)
+                s4 = z3.Solver()
+                s4.set("timeout", self.ex.oblig_timeout_ms * 4)
+                cone4 = cone_of_influence(self.pc_raw, goal)
+                s4.add(cone4)
+                s4.add(z3.Not(goal))
+                try:
+                    r4 = s4.check()
+                except z3.Z3Exception:
+                    r4 = z3.unknown
+                if r4 == z3.unsat:
+                    from .solve import any_quantifier, confirm_unsat
+
+                    if os.environ.get("PYVC_TRUST_Z3") == "1" or not any_quantifier(cone4 + [goal]):
+                        ob.status, ob.solver = "discharged", "z3(retry)"
+                    else:
+                        ok_c, by, _ = confirm_unsat(dump_smt2(cone4 + [z3.Not(goal)]), budget_s=max(40, self.ex.oblig_timeout_ms // 250))
+                        if ok_c:
+                            ob.status, ob.solver = "discharged", "z3(retry)+" + by
             if ob.status == "unknown" and self.ex.on_unknown is not None:
                 self.ex.on_unknown(ob)
         ob.secs = time.time() - t0
